@@ -388,7 +388,7 @@ def keeps_system(chord, t, n):
 def check_pitch(inp):
     """pitch level: op in mod / chord_o / ton_o / note_o / elem_mod;  expected shift of one note"""
     from musiclang import Element
-    c, n = mk_chord(inp['chord']), mk_note(inp['note'])
+    c, n = mk_chord_opt(inp['chord']), mk_note(inp['note'])
     op = inp['op']
     last = inp.get('last')
     rel = n.is_relative
@@ -745,6 +745,10 @@ def oracle(ctx):
                 inp['last'] = rng.randint(-40, 50)
             if op == 'elem_mod' and n.type[0] in 'cb':
                 inp['chord']['ext'] = ''
+            if op in ('chord_o', 'note_o') and rng.random() < 0.12:
+                # a chord written without a tonality (C major is meant): its octave moves the pitches all the same
+                # (seed C04-6 dropped the chord octave in that branch of Chord.scale_pitches)
+                inp['chord']['ton'] = None
             run(ctx, 'pitch', inp, f'pitch:{op}:{n.type}', [f'pitch:{op}', f'kind={n.type}', f'mode={c.tonality.mode}'],
                 nontrivial=(inp['k'] != 0 if op != 'mod' else t.abs_degree != 0))
 
